@@ -1,11 +1,11 @@
 package main
 
 import (
-	"sort"
-	"os"
 	"fmt"
 	"go/constant"
 	"go/token"
+	"os"
+	"sort"
 	"sync"
 	"unicode"
 	"unicode/utf8"
@@ -71,9 +71,9 @@ type Flat struct {
 	cont   map[*FCtx]*FB // continuation segment after the spliced call
 	raw    bool
 
-	pathOnce     sync.Once
-	paths        [][]*FB // feasible entry→exit paths, each segment visited at most twice
-	pathsAll     bool    // the enumeration is complete (else the graph-level fallback is used)
+	pathOnce sync.Once
+	paths    [][]*FB // feasible entry→exit paths, each segment visited at most twice
+	pathsAll bool    // the enumeration is complete (else the graph-level fallback is used)
 }
 
 // flatPathLimit bounds the cached enumeration of feasible paths per view.
@@ -1342,7 +1342,7 @@ func (fl *Flat) APs(v ssa.Value) []AP {
 }
 
 func viewOrigins(root *ssa.Function, v ssa.Value) []ssa.Value { return flatOf(root).Origins(v) }
-func viewAPs(root *ssa.Function, v ssa.Value) []AP           { return flatOf(root).APs(v) }
+func viewAPs(root *ssa.Function, v ssa.Value) []AP            { return flatOf(root).APs(v) }
 
 // viewLoops: the natural loops of every function of fn's flattened view, nested
 // across splices: a helper's loops lie inside the loops that enclose its call,
@@ -1383,7 +1383,6 @@ func viewLoops(fn *ssa.Function) []*Loop {
 	return all
 }
 
-
 // onlySpliced: fn is an unexported helper that only ever runs spliced into
 // other functions' views: it has static callers in the module, every use of it
 // is such a call, and it is not a root in its own right.
@@ -1414,7 +1413,6 @@ func (c *Ctx) onlySpliced(fn *ssa.Function) bool {
 	}
 	return calls > 0 && other == 0
 }
-
 
 // deferPlan: for each exit (RunDefers) of fn, the defer statements whose operand is a
 // parameterless function literal of the module and that were executed on every path to
